@@ -21,7 +21,10 @@ def harnesses(tier):
         hs += [('uq', ('XV_RECL=STAMP',), False, '_stamp'), ('uq', ('XV_RECL=QSBR',), False, '_qsbr'), ('hm', ('XV_RECL=EBR',), False, '_ebr'), ('recl', ('XV_RECL=EBR',), True, '_ebr_tsan')]
     return hs
 HARNESSES = harnesses('quick')
-LEVEL = 'exploration'
+PROPERTY_FILES = ['Properties_C03', 'Properties_C03_seqlock_src', 'Properties_C03_seqlock_slots_src', 'Properties_C03_seqlock', 'Properties_C03_seqlock_slots']
+THEOREM_NOTES = {
+    'scope': 'proved: (a) the generated synchronisation-annotation table is consistent (every annotated site at least as strong as annotated, every pair release->acquire or sc<->sc); (b) the meta-theory of the weak machine; (c) for seqlock - the structure whose correctness rests on fences - load atomicity, update on the latest generation and writer exclusion on EVERY execution of the weak machine, for any number of threads, words and slots, instantiated with the memory orders generated from seqlock.hpp (orders_ok gen_orders by computation), with machine-checked counter-example executions for each weakened site. For all other containers and the reclaimers robustness under weak executions and race freedom are explored on the real code, not proved',
+}
 COMPUTED_OBLIGATIONS = ['table_ok (227 annotated sites, computed by vm_compute)']
 ASSUMPTIONS = [
     'weak executions are those of a view-based release/acquire + fences + seq_cst machine (WM/View.v; the same machine is implemented by rt/xvrt in --weak mode): modification order = execution order, no load buffering, a load may read any message not older than the thread view of the location and not overwritten more than W scheduling steps ago (W = 16 in the quick tier, 64 in the thorough tier)',
@@ -72,6 +75,10 @@ def run(ctx):
             js.append((dict(cfg, race='1'), prog, 'random', n // 2, ctx['seed'] + i, ()))
         do_search(ctx, Hs[name], js, name, classify=lambda c, h, f, name=name: {'harness': name, 'mode': 'weak' if 'weak=' in f['case'] else 'race', 'W': int(W)})
     go('chase', [({'container': c, 'capacity': '4'}, c12.conc_program(rng, 2, 5, 3, 1)) for c in ('growing', 'fixed')])
+    # the pop/steal handshake (Dekker pattern on bottom/top): two items, owner pops while one or two thieves steal
+    go('chase', [({'container': 'fixed', 'capacity': '4'}, p) for p in ([['push 1', 'push 2', 'pop', 'pop'], ['steal', 'steal']],
+                                                                      [['push 1', 'push 2', 'push 3', 'pop', 'pop'], ['steal', 'steal'], ['steal']],
+                                                                      [['push 1', 'pop', 'push 2', 'pop'], ['steal'], ['steal']])])
     for nm in ('seqlock', 'seqlock_tsan'):
         go(nm, [({'slots': str(s), 'size': str(sz)}, c14.program(rng, 3, 3, 1)) for s, sz in ((1, 24), (2, 24), (3, 20))])
     go('lr', [({'x': '1'}, c13.program(rng, 1 + k % 2, 2, 3)) for k in range(2)])
